@@ -575,7 +575,13 @@ func checkC13(p *Prog, r *Result, tier string) {
 		}
 		if nx := p.FuncByName(itn.Obj().Name() + ".next"); nx != nil {
 			ok := false
-			for _, b := range nx.Blocks {
+			var blocks []*ssa.BasicBlock
+			for _, f := range calleesWithin(p, nx, 1) {
+				if f == nx || recvIs(f, itn) {
+					blocks = append(blocks, f.Blocks...)
+				}
+			}
+			for _, b := range blocks {
 				ifi, isIf := b.Instrs[len(b.Instrs)-1].(*ssa.If)
 				if !isIf {
 					continue
